@@ -23,8 +23,8 @@ theorem clip0_nonneg {w : V} {v : Int} (h : clip0 w = some v) : 0 ≤ v := by
     split at h <;> simp at h <;> omega
 
 /-- every entry written by the inner loop of `SWAffine` is ≥ 0 -/
-theorem swCell_nonneg (S : Matrix) (o : Int) (x y : Nat) (pd pu lc : Cell) (k : Kind) (v : Int)
-    (h : (swCell S o x pd pu lc y).get k = some v) : 0 ≤ v := by
+theorem swCell_nonneg (cross : Bool) (S : Matrix) (o : Int) (x y : Nat) (pd pu lc : Cell) (k : Kind) (v : Int)
+    (h : (swCell cross S o x pd pu lc y).get k = some v) : 0 ≤ v := by
   cases k with
   | m =>
     simp only [Cell.get, swCell] at h
@@ -37,21 +37,21 @@ theorem swCell_nonneg (S : Matrix) (o : Int) (x y : Nat) (pd pu lc : Cell) (k : 
   | l => simp only [Cell.get, swCell] at h; exact clip0_nonneg h
 
 /-- every entry of the table of `SWAffine` is ≥ 0 -/
-theorem swTable_nonneg (S : Matrix) (o : Int) (r q : List Nat) (i j : Nat) (hi : i ≤ r.length)
-    (hj : j ≤ q.length) (k : Kind) (v : Int) (h : ((swTable S o r q).at i j).get k = some v) : 0 ≤ v := by
-  rw [swTable_at S o r q i j hj] at h
+theorem swTable_nonneg (cross : Bool) (S : Matrix) (o : Int) (r q : List Nat) (i j : Nat) (hi : i ≤ r.length)
+    (hj : j ≤ q.length) (k : Kind) (v : Int) (h : ((swTable cross S o r q).at i j).get k = some v) : 0 ≤ v := by
+  rw [swTable_at cross S o r q i j hj] at h
   cases i with
   | zero =>
-    rw [swAt_row0 S o r q j hj] at h
+    rw [swAt_row0 cross S o r q j hj] at h
     cases k <;> simp [zeroCell, Cell.get] at h <;> omega
   | succ i =>
     cases j with
     | zero =>
-      rw [swAt_first S o r q i (by omega)] at h
+      rw [swAt_first cross S o r q i (by omega)] at h
       cases k <;> simp [zeroCell, Cell.get] at h <;> omega
     | succ j =>
-      rw [swAt_inner S o r q i j (by omega) (by omega)] at h
-      exact swCell_nonneg S o _ _ _ _ _ k v h
+      rw [swAt_inner cross S o r q i j (by omega) (by omega)] at h
+      exact swCell_nonneg cross S o _ _ _ _ _ k v h
 
 /-- a gap run whose opening step is still to come stands on a positive value -/
 def Pos (T : Table) (st : TB) : Prop :=
@@ -59,11 +59,11 @@ def Pos (T : Table) (st : TB) : Prop :=
 
 /-- `Pos` is an invariant of the layer-aware local traceback when gap scores are ≤ 0 and the
     entries of the table are ≥ 0 -/
-theorem loop_pos (T : Table) (S : Matrix) (o : Int) (r q : List Nat) (R C I0 J0 : Nat)
+theorem loop_pos (cross : Bool) (T : Table) (S : Matrix) (o : Int) (r q : List Nat) (R C I0 J0 : Nat)
     (hg : ∀ x, S x 0 ≤ 0 ∧ S 0 x ≤ 0)
     (hnn : ∀ i j, i ≤ R → j ≤ C → ∀ k v, (T.at i j).get k = some v → 0 ≤ v) :
     ∀ (fuel : Nat) (st st' : TB), Inv R C I0 J0 st → Pos T st →
-      tbLoop true true T S o r q R C fuel st = .ok st' → Pos T st' := by
+      tbLoop true cross true T S o r q R C fuel st = .ok st' → Pos T st' := by
   intro fuel
   induction fuel with
   | zero => intro st st' _ hp hl; simp only [tbLoop] at hl; cases hl; exact hp
@@ -82,7 +82,7 @@ theorem loop_pos (T : Table) (S : Matrix) (o : Int) (r q : List Nat) (R C I0 J0 
       by_cases hsw : (True ∧ v = 0)
       · rw [if_pos hsw] at hl; cases hl; exact hp
       rw [if_neg hsw] at hl
-      cases hfind : (cands true S o (r.getD (st.i - 1) 0) (q.getD (st.j - 1) 0)).find?
+      cases hfind : (cands cross true S o (r.getD (st.i - 1) 0) (q.getD (st.j - 1) 0)).find?
           (caseHit true T st v) with
       | none => rw [hfind] at hl; cases hl
       | some cd =>
@@ -117,45 +117,45 @@ theorem loop_pos (T : Table) (S : Matrix) (o : Int) (r q : List Nat) (R C I0 J0 
           rcases cands_cases hmem with ⟨rfl, hpl⟩ | ⟨rfl, hpl⟩ | ⟨rfl, _⟩
           · rcases hpl with ⟨_, e⟩ | ⟨hh, _⟩
             · have := (hg (r.getD (st.i - 1) 0)).1; omega
-            · cases hh
+            · exact absurd rfl hh
           · rcases hpl with ⟨_, e⟩ | ⟨hh, _⟩
             · have := (hg (q.getD (st.j - 1) 0)).2; omega
-            · cases hh
+            · exact absurd rfl hh
           · exact absurd rfl hlast
 
 /-- a traceback standing on the border does nothing -/
-theorem tbLoop_border (aware sw : Bool) (T : Table) (S : Matrix) (o : Int) (r q : List Nat) (R C fuel : Nat)
-    (st : TB) (h : st.i = 0 ∨ st.j = 0) : tbLoop aware sw T S o r q R C fuel st = .ok st := by
+theorem tbLoop_border (aware cross sw : Bool) (T : Table) (S : Matrix) (o : Int) (r q : List Nat) (R C fuel : Nat)
+    (st : TB) (h : st.i = 0 ∨ st.j = 0) : tbLoop aware cross sw T S o r q R C fuel st = .ok st := by
   cases fuel with
   | zero => rfl
   | succ n => unfold tbLoop; rw [if_pos h]
 
 /-- the layer-aware traceback of `SWAffine` never raises the ghost flag -/
-theorem swAlignT_aware_tie (S : Matrix) (o : Int) (r q : List Nat) (ps : List Pair) (t : Bool)
-    (h : swAlignT true S o r q = .ok (ps, t)) : t = false := by
+theorem swAlignT_aware_tie (cross : Bool) (S : Matrix) (o : Int) (r q : List Nat) (ps : List Pair) (t : Bool)
+    (h : swAlignT true cross S o r q = .ok (ps, t)) : t = false := by
   unfold swAlignT at h
   simp only [] at h
   split at h
   · cases h
   · rename_i st hl
-    have ht := loop_tie_aware true _ S o r q _ _ _ _ st hl
+    have ht := loop_tie_aware cross true _ S o r q _ _ _ _ st hl
     simp only [] at ht
     cases h; exact ht
 
-/-- **Faithful pair scores, `SWAffine`**: for gap scores ≤ 0 every pair the model returns
-    carries the score recomputed from the letters, the matrix and the gap parameters. -/
-theorem swAlign_faithful (S : Matrix) (o : Int) (hg : ∀ x, S x 0 ≤ 0 ∧ S 0 x ≤ 0) (r q : List Nat)
-    (ps : List Pair) (h : swAlign S o r q = .ok ps) : faithful S o r q ps = true := by
-  obtain ⟨hI, hJ⟩ := swBest_bound S o r q
-  obtain ⟨_, hbest, _⟩ := swBest_spec S o r q
-  unfold swAlign swAlignT at h
+/-- **Faithful pair scores, `SWAffine`** (either fill): for gap scores ≤ 0 every pair the model
+    returns carries the score recomputed from the letters, the matrix and the gap parameters. -/
+theorem swAlignT_faithful (cross : Bool) (S : Matrix) (o : Int) (hg : ∀ x, S x 0 ≤ 0 ∧ S 0 x ≤ 0) (r q : List Nat)
+    (ps : List Pair) (h : (swAlignT true cross S o r q).map (·.1) = .ok ps) : faithful S o r q ps = true := by
+  obtain ⟨hI, hJ⟩ := swBest_bound cross S o r q
+  obtain ⟨_, hbest, _⟩ := swBest_spec cross S o r q
+  unfold swAlignT at h
   simp only [] at h
-  generalize hb : swBest (swRows S o r q) = best at hI hJ hbest h
+  generalize hb : swBest (swRows cross S o r q) = best at hI hJ hbest h
   obtain ⟨s, mi, mj⟩ := best
   simp only [] at hI hJ hbest h
   by_cases hz : mi = 0 ∨ mj = 0
   · -- no positive cell: the empty alignment
-    rw [tbLoop_border true true _ S o r q _ _ _ _ hz] at h
+    rw [tbLoop_border true cross true _ S o r q _ _ _ _ hz] at h
     simp only [Except.map] at h
     cases h
     show List.all _ (pairOK S o r q) = true
@@ -164,62 +164,68 @@ theorem swAlign_faithful (S : Matrix) (o : Int) (hg : ∀ x, S x 0 ≤ 0 ∧ S 0
     simpa [blockSum, sumRange_zero] using this
   have hmi : 0 < mi := by omega
   have hmj : 0 < mj := by omega
-  have hinit : Good (swTable S o r q) r.length q.length s
+  have hinit : Good (swTable cross S o r q) r.length q.length s
       { i := mi, j := mj, layer := .m, last := .m, score := 0, maxI := mi, maxJ := mj, aln := [] } := by
     refine ⟨hI, hJ, s, ?_, by simp [total]⟩
     simp only []
-    rw [swTable_at S o r q mi mj hJ]; exact hbest
+    rw [swTable_at cross S o r q mi mj hJ]; exact hbest
   obtain ⟨st, hloop, ⟨hi', hj', v, hv, _⟩, hend⟩ :=
-    loop_good_gen true true r.length q.length (exists_cand_sw S o r q) s (mi + mj) _ hinit (Nat.le_refl _)
+    loop_good_gen true cross true r.length q.length (exists_cand_sw cross S o r q) s (mi + mj) _ hinit (Nat.le_refl _)
   rw [hloop] at h
   simp only [Except.map] at h
   cases h
   -- the loop stops on a value 0
-  have hv0 : (( swTable S o r q).at st.i st.j).get st.layer = some 0 := by
+  have hv0 : ((swTable cross S o r q).at st.i st.j).get st.layer = some 0 := by
     rcases hend with h | h | ⟨_, h⟩
-    · rw [swTable_at S o r q _ _ hj', h, swAt_row0 S o r q _ hj']
+    · rw [swTable_at cross S o r q _ _ hj', h, swAt_row0 cross S o r q _ hj']
       cases st.layer <;> rfl
-    · rw [swTable_at S o r q _ _ hj', h]
+    · rw [swTable_at cross S o r q _ _ hj', h]
       cases hi0 : st.i with
-      | zero => rw [swAt_row0 S o r q _ (Nat.zero_le _)]; cases st.layer <;> rfl
-      | succ i0 => rw [swAt_first S o r q i0 (by omega)]; cases st.layer <;> rfl
+      | zero => rw [swAt_row0 cross S o r q _ (Nat.zero_le _)]; cases st.layer <;> rfl
+      | succ i0 => rw [swAt_first cross S o r q i0 (by omega)]; cases st.layer <;> rfl
     · exact h
-  have hinv := loop_inv true true _ S o r q r.length q.length mi mj _ _ st
+  have hinv := loop_inv true cross true _ S o r q r.length q.length mi mj _ _ st
     (init_inv r.length q.length mi mj .m hI hJ) hloop
-  have hf := loop_faith_aware true _ S o r q r.length q.length mi mj _ _ st
+  have hf := loop_faith_aware cross true _ S o r q r.length q.length mi mj _ _ st
     (init_inv r.length q.length mi mj .m hI hJ) rfl (init_faith S o r q mi mj .m hmi hmj) hloop
-  have hpos := loop_pos _ S o r q r.length q.length mi mj hg
-    (fun i j hi hj k v hh => swTable_nonneg S o r q i j hi hj k v hh) _ _ st
+  have hpos := loop_pos cross _ S o r q r.length q.length mi mj hg
+    (fun i j hi hj k v hh => swTable_nonneg cross S o r q i j hi hj k v hh) _ _ st
     (init_inv r.length q.length mi mj .m hI hJ) (fun hh => absurd rfl hh) hloop
   obtain ⟨hi, hj, hmR, hmC, isegm, isegu, isegl, iempty0, _, _, _, _⟩ := hinv
   have hpair : pairOK S o r q ⟨st.i, st.maxI, st.j, st.maxJ, st.score⟩ = true := by
     cases hk : st.last with
     | m => rw [hf.segm hk]; exact pairOK_block S o r q _ _ _ _ hi (isegm hk)
     | u =>
-      have hlay : st.layer = .m := by
-        cases hl : st.layer with
-        | m => rfl
-        | l => exact absurd hl (hf.segu hk).2.2
-        | u =>
-          exfalso
-          obtain ⟨w, hw, hw0⟩ := hpos (by rw [hk]; decide) (by rw [hl, hk])
-          rw [hv0] at hw; cases hw; omega
+      -- a gap run still in its own layer stands on a positive value: the loop did not stop there
+      have hlay : st.layer ≠ .u := by
+        intro hl
+        obtain ⟨w, hw, hw0⟩ := hpos (by rw [hk]; decide) (by rw [hl, hk])
+        rw [hv0] at hw; cases hw; omega
       obtain ⟨e1, e2⟩ := isegu hk
-      rw [(hf.segu hk).2.1 hlay, ← e1]
-      exact pairOK_up S o r q _ _ _ e2
+      have e2' : st.i < st.maxI := by
+        rcases e2 with e2 | e2
+        · exact e2
+        · exact absurd e2 hlay
+      rw [(hf.segu hk).2 hlay, ← e1]
+      exact pairOK_up S o r q _ _ _ e2'
     | l =>
-      have hlay : st.layer = .m := by
-        cases hl : st.layer with
-        | m => rfl
-        | u => exact absurd hl (hf.segl hk).2.2
-        | l =>
-          exfalso
-          obtain ⟨w, hw, hw0⟩ := hpos (by rw [hk]; decide) (by rw [hl, hk])
-          rw [hv0] at hw; cases hw; omega
+      have hlay : st.layer ≠ .l := by
+        intro hl
+        obtain ⟨w, hw, hw0⟩ := hpos (by rw [hk]; decide) (by rw [hl, hk])
+        rw [hv0] at hw; cases hw; omega
       obtain ⟨e1, e2⟩ := isegl hk
-      rw [(hf.segl hk).2.1 hlay, ← e1]
-      exact pairOK_left S o r q _ _ _ e2
+      have e2' : st.j < st.maxJ := by
+        rcases e2 with e2 | e2
+        · exact e2
+        · exact absurd e2 hlay
+      rw [(hf.segl hk).2 hlay, ← e1]
+      exact pairOK_left S o r q _ _ _ e2'
   show st.emit.aln.all (pairOK S o r q) = true
   simp only [TB.emit, List.all_cons, hpair, hf.done, Bool.and_self]
+
+/-- **Faithful pair scores, `SWAffine`**, the model of the code -/
+theorem swAlign_faithful (S : Matrix) (o : Int) (hg : ∀ x, S x 0 ≤ 0 ∧ S 0 x ≤ 0) (r q : List Nat)
+    (ps : List Pair) (h : swAlign S o r q = .ok ps) : faithful S o r q ps = true :=
+  swAlignT_faithful true S o hg r q ps h
 
 end Biogo.Proofs.SWFaith
